@@ -68,7 +68,7 @@ ASSUMPTIONS = [
 ]
 MANIFEST = {
     'level': 'exploration',
-    'technique': 'runtime monitoring with a fresh-process reference: every message of long interleaved multi-session sequences is compared with the decode of the same bytes alone in a child forked from a pristine template (routes / attributes / JSON v6+v4 / text); earlier results re-rendered for shared-object immutability; class-level state snapshots',
+    'technique': 'runtime monitoring with a fresh-process reference: every message of long interleaved multi-session sequences is compared with the decode of the same bytes alone in a child forked from a pristine template (routes / attributes / JSON v6+v4 / text); earlier results re-rendered for shared-object immutability; class-level state snapshots; two sessions of different kinds established at the same time with one real exabgp process and fed an interleaved history, against each session alone with a fresh process: what the real helper process is told must not differ',
     'text': 'Sequences with heavy repetition designed to hit the process-wide caches are decoded in one process; each unique message is '
     'also decoded alone in a fresh forked process; any difference in outcome, routes, attributes or API output is a violation, '
     'replayed in new children to a short witness. Every kept result is re-rendered later to detect in-place alteration of '
@@ -84,7 +84,7 @@ WIDTH_PAIRS = ['asn4->asn4', 'asn4->as2', 'as2->asn4', 'as2->as2']
 # a cache HIT across sessions of different AS width only exists while the cache ignores the session kind (the defect
 # repaired upstream); what the workload must always produce is the OPPORTUNITY: the same octets arriving next on a
 # session of the other width (then a hit or a miss), and hits between sessions of the same width
-REQUIRED_CLASSES = {'quick': [f'{p}:miss' for p in WIDTH_PAIRS] + ['asn4->asn4:hit', 'as2->as2:hit', 'extcomm-duplicate', 'eor', 'mp-bypass']}
+REQUIRED_CLASSES = {'quick': [f'{p}:miss' for p in WIDTH_PAIRS] + ['asn4->asn4:hit', 'as2->as2:hit', 'extcomm-duplicate', 'eor', 'mp-bypass', 'daemon:two-sessions']}
 REQUIRED_CLASSES['thorough'] = REQUIRED_CLASSES['quick']
 
 
@@ -804,6 +804,7 @@ def plan(tier, seed):
     else:
         for i in range(64):
             out.append({'shard': i, 'sessions': 2 + i % 3, 'bodies': 36 // (2 + i % 3), 'per_group': 3, 'sequences': 3, 'length': 500, 'window': 1, 'shrink_forks': 60, 'hashseed': i % 2})
+    out += [{'shard': 900 + i, 'daemon': True, 'part': i, 'messages': 60 if tier == 'quick' else 400} for i in range(4 if tier == 'quick' else 8)]
     return out
 
 
@@ -824,7 +825,115 @@ def ukey(st: dict) -> tuple:
     return (st['k'], st['t'], st['b'])
 
 
+def run_daemon(desc):
+    """the property read literally, on REAL processes: two neighbors of different kinds (EBGP / IBGP, or 4-octet / 2-octet AS)
+    established at the same time with one daemon receive the same attribute octets in an interleaved history; each session's
+    messages are then sent alone to a FRESH daemon.  What the helper process is told about each message (time, counter and pid
+    fields aside) must be the same in both"""
+    import json as _json
+    import time
+
+    from vlib import daemon
+
+    res = Result()
+    r = random.Random(desc['seed'] * 15485867 + desc['part'])
+    width_case = desc['part'] % 2 == 1  # sessions differ in the AS width, else in IBGP / EBGP
+    n1 = {'addr': '127.0.0.2', 'pas': 65001, 'asn4': True}
+    n2 = {'addr': '127.0.0.3', 'pas': 65001 if width_case else 65000, 'asn4': not width_case}
+    text = 'process sink {\n    run @PY@ @DIR@/sink.py @DIR@/events;\n    encoder json;\n}\n'
+    for nb in (n1, n2):
+        text += exa.neighbor_text(peer=nb['addr'], pas=nb['pas'], families=[(1, 1), (2, 1)], asn4=True, extra='    adj-rib-in true;\n    api { processes [ sink ]; receive { parsed; update; } }')
+    # the messages: attribute blocks legal on both sessions, each sent to both, adjacent, in both orders, with repeats
+    bodies = {0: [], 1: []}
+    seq = []
+    for i in range(desc['messages']):
+        if width_case:
+            # the octets differ with the AS width: the same intent encoded for each session (same values, same order)
+            rr = random.Random(r.getrandbits(32))
+            st = rr.getstate()
+            b1, _ = gw.gen_update(rr, {'asn4': True, 'addpath': set(), 'ibgp': False}, families=((1, 1), (2, 1)), rich=0.7)
+            rr.setstate(st)
+            b2, _ = gw.gen_update(rr, {'asn4': False, 'addpath': set(), 'ibgp': False}, families=((1, 1), (2, 1)), rich=0.7)
+        else:
+            b1, _ = gw.gen_update(r, {'asn4': True, 'addpath': set(), 'ibgp': True}, families=((1, 1), (2, 1)), rich=0.7)
+            b2 = b1
+        order = [(0, b1), (1, b2)]
+        if r.random() < 0.5:
+            order.reverse()
+        for k, b in order:
+            seq.append((k, b))
+            if r.random() < 0.2:
+                seq.append((k, b))  # the very same message again
+
+    def marker(asn4, n):
+        return rw.enc_update_body(b'', rw.enc_attr(0x40, 1, b'\x00') + rw.enc_attr(0x40, 2, b'') + rw.enc_attr(0x40, 3, bytes([192, 0, 2, 1])) + rw.enc_attr(0x40, 5, struct.pack('!L', 100)), bytes([32, 203, 0, 113, n]))
+
+    def run(which):
+        """which: set of session indexes taking part -> {session index: [normalised update events]}"""
+        d = daemon.Daemon(text, env={'exabgp_log_level': 'ERROR'}, more_addrs=('127.0.0.3',))
+        peers = {}
+        try:
+            d.start()
+            for k, nb in enumerate((n1, n2)):
+                if k in which:
+                    peers[k] = d.accept(addr=None if k == 0 else nb['addr'])
+                    peers[k].establish(nb['pas'], peer_asn4=nb['asn4'], rid='10.0.0.%d' % (2 + k))
+            for k, b in seq:
+                if k in which:
+                    peers[k].send(2, b)
+                    time.sleep(0.002)  # the interleaving across the two connections is the history: keep the order of arrival
+            for k in which:
+                peers[k].send(2, marker((n1, n2)[k]['asn4'], 250 + k))
+            d.wait_lines('events', lambda ls: all(any('203.0.113.%d/32' % (250 + k) in x for x in ls) for k in which), timeout=90)
+            lines = d.lines('events')
+            log = d.tail(2000)
+        finally:
+            for p_ in peers.values():
+                p_.close()
+            d.stop()
+        if 'exception.unhandled' in log or 'Traceback' in log:
+            raise RuntimeError('unhandled exception: ' + log[log.find('Traceback') : log.find('Traceback') + 300])
+        out = {0: [], 1: []}
+        for ln in lines:
+            ev = _json.loads(ln)
+            if ev.get('type') != 'update':
+                continue
+            for key in ('time', 'pid', 'ppid', 'counter', 'host'):
+                ev.pop(key, None)
+            k = 0 if ev['neighbor']['address']['peer'] == n1['addr'] else 1
+            if '203.0.113.25' in ln:
+                continue
+            out[k].append(ev)
+        return out
+
+    try:
+        both = run({0, 1})
+        alone = {0: run({0})[0], 1: run({1})[1]}
+    except daemon.Inconclusive as e:
+        daemon.skipped(res, str(e))
+        return res
+    except RuntimeError as e:
+        res.violation('C19/daemon:unhandled-exception', str(e)[:300], {'level': 'daemon'}, 'daemon')
+        return res
+    cls = 'daemon:' + ('as-width' if width_case else 'ibgp-ebgp')
+    for k in (0, 1):
+        wit = {'level': 'daemon', 'sessions': [n1, n2], 'session': k, 'messages': [b.hex()[:300] for kk, b in seq if kk == k][:40]}
+        if len(both[k]) != len(alone[k]):
+            res.violation(f'C19/daemon:event-count-differs:{cls}', f'session {k}: {len(both[k])} update events with the other session alongside, {len(alone[k])} alone', wit, cls)
+            continue
+        diff = [i for i, (a, b) in enumerate(zip(both[k], alone[k])) if a != b]
+        if diff:
+            i = diff[0]
+            res.violation(f'C19/daemon:history-dependent:{cls}', f'session {k}, message {i}: told differently with the other session alongside than alone: {_json.dumps(both[k][i])[:200]} / {_json.dumps(alone[k][i])[:200]}', dict(wit, together=both[k][i], alone=alone[k][i]), cls)
+        else:
+            res.ok(cls, ('daemon', width_case, k), len(both[k]))
+            res.ok('daemon:two-sessions')
+    return res
+
+
 def run_shard(desc):
+    if desc.get('daemon'):
+        return run_daemon(desc)
     res = Result()
     exa.quiet()
     from exabgp.bgp.message import Message  # noqa: F401 - the template has ExaBGP imported
